@@ -90,6 +90,40 @@ func opDesc(v ssa.Value, d int) string {
 		}
 		return x.Op.String() + opDesc(x.X, d+1)
 	case *ssa.Call:
+		// a boolean helper of the package (an extracted search loop): described like a flag, by the conditions
+		// under which it answers true
+		if g := core.StaticCallee(x); g != nil && len(g.Blocks) > 0 && x.Parent() != nil && g.Pkg == x.Parent().Pkg && d < 4 {
+			if g.Signature.Results().Len() == 1 && g.Signature.Results().At(0).Type().String() == "bool" {
+				var sets []string
+				allConst := true
+				for _, b := range g.Blocks {
+					ret, ok := b.Instrs[len(b.Instrs)-1].(*ssa.Return)
+					if !ok {
+						continue
+					}
+					k, isC := ret.Results[0].(*ssa.Const)
+					if !isC || k.Value == nil {
+						allConst = false
+						continue
+					}
+					if k.Value.ExactString() == "true" {
+						var cs []string
+						for _, c := range core.CondsAt(b) {
+							a := condAtomD(c, d+2)
+							if !strings.Contains(a, "ok(") {
+								cs = append(cs, a)
+							}
+						}
+						sort.Strings(cs)
+						sets = append(sets, strings.Join(uniq(cs), "&"))
+					}
+				}
+				if allConst && len(sets) > 0 {
+					sort.Strings(sets)
+					return "flag{" + strings.Join(uniq(sets), "|") + "}"
+				}
+			}
+		}
 		name := core.CalleeID(x)
 		name = name[strings.LastIndex(name, ".")+1:]
 		var as []string
@@ -347,7 +381,9 @@ func checkPredClauses(p *core.Prog, r *core.Report, rule string, clauses []predC
 					sites = append(sites, msgSite{c, outer})
 					return
 				}
-				if p.InSubject(h) && len(h.Blocks) > 0 && h.Signature.Recv() != nil && f.Signature.Recv() != nil && core.NamedOf(h.Signature.Recv().Type()) == core.NamedOf(f.Signature.Recv().Type()) {
+				sameRecv := h.Signature.Recv() != nil && f.Signature.Recv() != nil && core.NamedOf(h.Signature.Recv().Type()) == core.NamedOf(f.Signature.Recv().Type())
+				plainHelper := h.Signature.Recv() == nil && h.Object() != nil && !h.Object().Exported()
+				if p.InSubject(h) && len(h.Blocks) > 0 && (sameRecv || plainHelper) {
 					search(h, append(append([]string{}, outer...), controlAtoms(c.Block())...), depth+1, seen)
 				}
 			})
